@@ -136,6 +136,61 @@ def check(run, prop: str):
     run.count("transcription.functions", prop, len(got))
 
 
+# ------------------------------------------------------------------ compile twins
+COMPILE_TWINS = {
+    "C15": [("tensordict/tensorclass.py", "_wrap_td_method"), ("tensordict/tensorclass.py", "_drop_stale_placeholders")],
+}
+
+
+class _EagerToPlain(ast.NodeTransformer):
+    """`super(type(self), self).__getattribute__("name")`  ->  `self.name`"""
+
+    def visit_Call(self, node):
+        self.generic_visit(node)
+        f = node.func
+        if (isinstance(f, ast.Attribute) and f.attr == "__getattribute__" and isinstance(f.value, ast.Call)
+                and isinstance(f.value.func, ast.Name) and f.value.func.id == "super"
+                and len(node.args) == 1 and isinstance(node.args[0], ast.Constant) and isinstance(node.args[0].value, str)):
+            return ast.Attribute(value=ast.Name(id="self", ctx=ast.Load()), attr=node.args[0].value, ctx=ast.Load())
+        return node
+
+
+def compile_twins(run, prop: str):
+    """the wrappers of tensorclass.py fetch `_tensordict` / `_non_tensordict` in two ways (`if not is_compiling(): … else: …`); the model
+    transcribes the eager branch.  Obligation per function: every such statement has an `else` branch that is the eager branch with
+    `super(type(self), self).__getattribute__("x")` read as `self.x` — so what is proved / observed for the eager path holds for the
+    compiled one as far as these functions go."""
+    import copy
+    for rel, qual in COMPILE_TWINS.get(prop, []):
+        key = str(repo() / rel)
+        if key not in _cache:
+            _cache[key] = ast.parse(Path(key).read_text())
+        node = _find(_cache[key], qual)
+        ob = f"compile-twin:{rel}:{qual}"
+        run.obligations.append(ob)
+        if node is None:
+            run.proof_broken.append(ob + ":not-found")
+            continue
+        n_twins, bad = 0, []
+        for sub in ast.walk(node):
+            if not isinstance(sub, ast.If):
+                continue
+            t = sub.test
+            is_not_compiling = (isinstance(t, ast.UnaryOp) and isinstance(t.op, ast.Not) and isinstance(t.operand, ast.Call)
+                                and isinstance(t.operand.func, ast.Name) and t.operand.func.id == "is_compiling")
+            if not is_not_compiling or not sub.orelse:
+                continue
+            n_twins += 1
+            eager = [_EagerToPlain().visit(copy.deepcopy(x)) for x in sub.body]
+            if [ast.dump(x) for x in eager] != [ast.dump(x) for x in sub.orelse]:
+                bad.append(sub.lineno)
+        if bad or not n_twins:
+            run.proof_broken.append(f"{ob}:the compile branch differs from the eager branch at lines {bad}" if bad else f"{ob}:no eager/compile statement found")
+        else:
+            run.discharged.append(ob)
+            run.count("transcription.compile_twins", qual, n_twins)
+
+
 if __name__ == "__main__":
     if len(sys.argv) == 3 and sys.argv[1] == "record":
         p = sys.argv[2]
